@@ -242,6 +242,46 @@ fn overflow_behaviour(rep: &mut Report) {
     case!(u32, "u32");
     case!(u64, "u64");
     case!(usize, "usize");
+    // a merge that hits the documented overflow panic: afterwards the sketch must still satisfy the
+    // bounds for the stream it has really received (a half-merged table breaks "at most the total")
+    for d in [1usize, 2, 3] {
+        for w in [1usize, 2, 4] {
+            rep.evaluations += 1;
+            let res = guarded(|| -> Option<(String, String)> {
+                let bh = CtlBuildHasher::mix(31 + d as u64);
+                let mut c: CountMinSketch<u64, u8, CtlBuildHasher> = CountMinSketch::with_params_and_hasher(w, d, bh);
+                let mut o: CountMinSketch<u64, u8, CtlBuildHasher> = CountMinSketch::with_params_and_hasher(w, d, bh);
+                let mut own: std::collections::BTreeMap<u64, u128> = std::collections::BTreeMap::new();
+                let mut total: u128 = 0;
+                for k in 0..6u64 {
+                    let n = 5 + (k as u8) * 3;
+                    c.add_n(&k, &n);
+                    *own.entry(k).or_insert(0) += n as u128;
+                    total += n as u128;
+                    o.add_n(&k, &40);
+                }
+                // o holds 240 in total: cells overflow during the merge
+                if guarded(|| c.merge(&o)).is_ok() {
+                    return None; // fitted (no overflow for this shape)
+                }
+                for (k, t) in &own {
+                    let q = c.query_point(k) as u128;
+                    if q < *t {
+                        return Some(("C02/underestimate/after-panicking-merge".into(), format!("after a merge that panicked on counter overflow query_point({}) = {} < {} added before", k, q, t)));
+                    }
+                    if q > total {
+                        return Some(("C02/exceeds-total/after-panicking-merge".into(), format!("after a merge that panicked on counter overflow query_point({}) = {} exceeds the total weight {} the sketch has received (half-merged table)", k, q, total)));
+                    }
+                }
+                None
+            });
+            match res {
+                Ok(None) => rep.count("panicking_merge_cases", 1),
+                Ok(Some((sig, what))) => rep.violation(sig, format!("cms<u8>(w={},d={}): {}", w, d, what), json!({"w": w, "d": d})),
+                Err(msg) => rep.violation(format!("C02/panic/{}", panic_class(&msg)), msg, json!({"w": w, "d": d})),
+            }
+        }
+    }
     // Extend is a loop of add()
     rep.evaluations += 1;
     let res = guarded(|| -> Option<(String, String)> {
